@@ -2895,10 +2895,10 @@ def check_gate_tuple(ck, facts):
                     v = norm._strip(rs.var(v["d"])["init"])
             return v
 
-        def find_guard(cn):
+        def find_guard(cn, want_op="!="):
             """(component, subscript text) for  it != R.end()  with  it = std::find(R.begin(), R.end(), rank),  R = gate_k.get_ranks(): the mirror is selected where the
             ranks of gate_k equal the neighbour rank; the subscript is then  it - R.begin()"""
-            if not (cn.get("k") in ("Bin", "OpCall") and cn.get("op") == "!="):
+            if not (cn.get("k") in ("Bin", "OpCall") and cn.get("op") == want_op):
                 return None
             l_, r_ = (cn["lhs"], cn["rhs"]) if cn.get("k") == "Bin" else cn["a"][:2]
             for u, v in ((l_, r_), (r_, l_)):
@@ -2970,11 +2970,25 @@ def check_gate_tuple(ck, facts):
                     fg_ = find_guard(cn) if br == "then" else None
                     if fg_ is not None:
                         guard = (fg_[0], "find")
+                    if br == "else" and find_guard(cn, "==") is not None:
+                        guard = (find_guard(cn, "==")[0], "find")
                     if br == "then" and cn.get("k") == "Bin" and cn.get("op") == "==":
                         for u, v in ((cn["lhs"], cn["rhs"]), (cn["rhs"], cn["lhs"])):
                             pu, vv = rs.path(u), const_copy_of(v)
                             if gate_accessor(pu, "get_ranks") is not None and vv is not None and vv.get("k") == "Ref" and vv.get("d") == rank_d:
                                 guard = (gate_accessor(pu, "get_ranks"), pu.steps[2:] if len(pu.steps) > 2 else ())
+                if guard is None:
+                    # early exit:  if(it == R.end()) return / continue;  as an earlier statement of a block around the clone
+                    for node, slot in dfl.enclosing_stmt_chain(par, c):
+                        if node.get("k") == "Block" and isinstance(slot, tuple):
+                            for sib in node.get("s", [])[:slot[1]]:
+                                if sib.get("k") == "If" and sib.get("else") is None:
+                                    body_ = [x for x in walk(sib["then"]) if x.get("k") != "Block"]
+                                    if body_ and all(x.get("k") in ("Return", "InlinedReturn", "Continue", "Break") or x.get("k") in ("Bool", "Int") for x in body_) \
+                                            and find_guard(norm._strip(sib["c"]), "==") is not None:
+                                        guard = (find_guard(norm._strip(sib["c"]), "==")[0], "find")
+                        if node.get("k") in ("For", "While", "Do", "ForRange") and node is not L:
+                            break
                 sub = src.steps[2:] if src is not None and len(src.steps) > 2 else ()
                 sub_ix = tuple(x[1] if x[0] == "index" else x[2] for x in sub)
                 g_ix = tuple(x[1] if x[0] == "index" else x[2] for x in guard[1]) if guard and guard[1] != "find" else None
